@@ -26,6 +26,10 @@ EXTRA = {
                                           '[U-Z]-[U-Z]-[U-Z]\\.'], T('B')], {'seqs': True, 'pack': 'amsmath'}),
     'seqs_bracket': (['cat', T('A'), ' ', ['G', '\\[ u: \\]', '[U-Z]-[U-Z]-[U-Z]:'], T('B')], {'seqs': True}),
     'display_punct': (['cat', T('A'), '\n', ['G', '\\[ u = v. \\]', 'V-V-V\\.'], '\n', T('B')], {}),
+    'cref_sed': (['cat', '\\usepackage[poorman]{cleveref}\\YYCleverefInput{/verif/vf/data/c.sed}', T('A'), ' ',
+                  ['G', '\\cref{x}', 'eqs\\.\\(1\\)–\\(2\\)y'], ' ', T('B'), ' ',
+                  ['G', '\\crefrange{a}{b}', 'items\\(3\\)to\\(4\\)'], ' ', T('C'), ' ',
+                  ['G', '\\cref{x}', 'eqs\\.\\(1\\)–\\(2\\)y'], ' ', T('D')], {}),
     'proof_de': (['cat', T('A'), '\n', ['proof', ['cat', '\n', T('B'), '\n'], None, 'Beweis'], '\n', T('C')],
                  {'pack': 'amsthm', 'lang': 'de'}),
 }
